@@ -1,7 +1,7 @@
 (* Property C11 — generated C is memory-safe and well-formed for every model. *)
 From Coq Require Import String ZArith List Bool Arith.
-From TLX Require Import Model.Bits Model.CLang Model.Netlist Model.GenDense Model.GenNet Model.Wrapper Model.Validate.
-From TLX Require Import Proofs.CLangFacts Proofs.GenDenseFacts Proofs.WrapperFacts Proofs.ValidateFacts Proofs.C11Facts Proofs.GenNetFacts.
+From TLX Require Import Model.Bits Model.CLang Model.Netlist Model.GenDense Model.GenNet Model.GenStream Model.Wrapper Model.Validate.
+From TLX Require Import Proofs.CLangFacts Proofs.GenDenseFacts Proofs.WrapperFacts Proofs.ValidateFacts Proofs.C11Facts Proofs.GenNetFacts Proofs.GenStreamFacts.
 Import ListNotations.
 
 (* For EVERY well-formed dense model, word size and input: the generated logic_net runs without an
@@ -19,6 +19,14 @@ Theorem C11_safe_net : forall W m inp,
   (0 < W)%Z -> wf_spatial_model m = true -> length inp = net_in m ->
   exists out, execZ W (gen_net m) inp = Some out /\ length out = net_out m.
 Proof. exact safe_net. Qed.
+
+(* Large programs (the library's predefined architectures): the parsed text, with binary indices, is compared with the generator
+   model cell by cell inside the kernel (gen_net_matchesN); acceptance transfers the theorem above to the parsed program itself. *)
+Theorem C11_safe_emitted : forall p m W inp,
+  gen_net_matchesN p m = true -> wf_spatial_model m = true -> (0 < W)%Z -> length inp = net_in m ->
+  exists out, execZ W (to_prog p) inp = Some out /\ length out = net_out m /\
+    forall j, (0 <= j < W)%Z -> map (lane j) out = eval_model m (map (lane j) inp).
+Proof. exact matches_correct. Qed.
 
 (* A verified checker for ONE emitted program (any layer kinds): if it accepts, the program is memory safe
    and defines every cell before reading it, for every input and every word size. *)
@@ -50,6 +58,7 @@ Proof. repeat split; vm_compute; reflexivity. Qed.
 
 Eval compute in "PA:C11_safe_dense"%string. Print Assumptions C11_safe_dense.
 Eval compute in "PA:C11_safe_net"%string. Print Assumptions C11_safe_net.
+Eval compute in "PA:C11_safe_emitted"%string. Print Assumptions C11_safe_emitted.
 Eval compute in "PA:C11_safe_check_sound"%string. Print Assumptions C11_safe_check_sound.
 Eval compute in "PA:C11_deterministic"%string. Print Assumptions C11_deterministic.
 Eval compute in "PA:C11_wrapper_safe"%string. Print Assumptions C11_wrapper_safe.
